@@ -115,6 +115,7 @@ func canonItem(item *api.OutputChannelItem, limit int, stage bool) J {
 
 	// the entry's own queries and every macro (C16), through the shared stage pipeline
 	c16 := stg.Run(&api.Extension{Dissector: dissector}, item, false)
+	c16.Micros, c16.ItemBytes = 0, 0 // items are compared across runs and segmentations: no timings or capture-size dependent lengths inside
 	out["c16"] = c16
 
 	// the later stages, as the worker and hub run them
